@@ -3,10 +3,10 @@ package rules
 // C19 — CopyOnWriteMap: lock discipline, immutable snapshots, single load, no check-then-act.
 
 import (
-	"sort"
 	"go/ast"
 	"go/token"
 	"go/types"
+	"sort"
 	"strings"
 
 	"fpcheck/core"
@@ -122,10 +122,48 @@ func CowCTA(c *core.Ctx) {
 	storerNames := map[string]bool{} // publishes: stores into the cell itself or through another method of the receiver
 	cowNames := map[string]bool{}
 	var cowMethods []*fnBody
+	// self: the map a function works on — the receiver of a method, or the single *CopyOnWriteMap parameter of a
+	// package-level helper (readSnapshot(r, f))
+	self := map[*fnBody]types.Object{}
 	for _, fb := range funcBodies(c, []*packages.Package{p}) {
-		if fb.Lit == nil && fb.Decl.Recv != nil && core.RecvTypeName(fb.Decl.Recv.List[0].Type) == "CopyOnWriteMap" && len(fb.Decl.Recv.List[0].Names) == 1 {
-			cowMethods = append(cowMethods, fb)
+		if fb.Lit != nil {
+			continue
 		}
+		if fb.Decl.Recv != nil {
+			if core.RecvTypeName(fb.Decl.Recv.List[0].Type) == "CopyOnWriteMap" && len(fb.Decl.Recv.List[0].Names) == 1 {
+				cowMethods = append(cowMethods, fb)
+				self[fb] = info.Defs[fb.Decl.Recv.List[0].Names[0]]
+			}
+			continue
+		}
+		var cands []types.Object
+		for _, f := range fb.Type.Params.List {
+			for _, nm := range f.Names {
+				if o := info.Defs[nm]; o != nil {
+					if pt, ok := o.Type().(*types.Pointer); ok && isNamed(pt.Elem(), "mutable", "CopyOnWriteMap") {
+						cands = append(cands, o)
+					}
+				}
+			}
+		}
+		if len(cands) == 1 {
+			cowMethods = append(cowMethods, fb)
+			self[fb] = cands[0]
+		}
+	}
+	// onSelf: the name of the method called on recv (recv.m(…)), or of the package-level helper recv is passed to
+	onSelf := func(call *ast.CallExpr, recv types.Object) string {
+		if sel, ok := ast.Unparen(call.Fun).(*ast.SelectorExpr); ok && objOf(info, sel.X) == recv {
+			return sel.Sel.Name
+		}
+		if fn := calleeOf(info, call); fn != nil && fn.Pkg() == p.Types && fn.Type().(*types.Signature).Recv() == nil {
+			for _, a := range call.Args {
+				if objOf(info, a) == recv {
+					return fn.Name()
+				}
+			}
+		}
+		return ""
 	}
 	cellCall := func(fb *fnBody, call *ast.CallExpr, method string) bool {
 		sel, ok := ast.Unparen(call.Fun).(*ast.SelectorExpr)
@@ -133,7 +171,7 @@ func CowCTA(c *core.Ctx) {
 			return false
 		}
 		inner, ok := ast.Unparen(sel.X).(*ast.SelectorExpr)
-		if !ok || objOf(info, inner.X) != info.Defs[fb.Decl.Recv.List[0].Names[0]] {
+		if !ok || objOf(info, inner.X) != self[fb] {
 			return false
 		}
 		callee := calleeOf(info, call)
@@ -142,7 +180,7 @@ func CowCTA(c *core.Ctx) {
 	// accessor: a parameterless method that loads the cell and stores into it (lazy initialisation of the empty snapshot)
 	accessor := map[string]bool{}
 	for _, fb := range cowMethods {
-		if fb.Type.Params.NumFields() != 0 {
+		if fb.Decl.Recv == nil || fb.Type.Params.NumFields() != 0 {
 			continue
 		}
 		ld, st := false, false
@@ -165,7 +203,7 @@ func CowCTA(c *core.Ctx) {
 		changed = false
 		for _, fb := range cowMethods {
 			name := fb.Decl.Name.Name
-			recv := info.Defs[fb.Decl.Recv.List[0].Names[0]]
+			recv := self[fb]
 			ast.Inspect(fb.Body, func(x ast.Node) bool {
 				call, ok := x.(*ast.CallExpr)
 				if !ok {
@@ -182,13 +220,13 @@ func CowCTA(c *core.Ctx) {
 					loaderNames[name] = true
 					changed = true
 				}
-				if sel, ok := ast.Unparen(call.Fun).(*ast.SelectorExpr); ok && objOf(info, sel.X) == recv {
+				if callee := onSelf(call, recv); callee != "" {
 					// the snapshot accessor stores only to initialise lazily: calling it does not make the caller a publisher
-					if storerNames[sel.Sel.Name] && !storerNames[name] && !accessor[sel.Sel.Name] {
+					if storerNames[callee] && !storerNames[name] && !accessor[callee] {
 						storerNames[name] = true
 						changed = true
 					}
-					if loaderNames[sel.Sel.Name] && !loaderNames[name] {
+					if loaderNames[callee] && !loaderNames[name] {
 						loaderNames[name] = true
 						changed = true
 					}
@@ -230,25 +268,20 @@ func CowCTA(c *core.Ctx) {
 	sort.Strings(cowList)
 	c.Table("R-CTA primitives", "reads: "+strings.Join(loaderList, ","), "copy-on-write entry: "+strings.Join(cowList, ","))
 	cowEntryNames = cowNames
-	for _, fb := range funcBodies(c, []*packages.Package{p}) {
-		if fb.Lit != nil || fb.Decl.Recv == nil || core.RecvTypeName(fb.Decl.Recv.List[0].Type) != "CopyOnWriteMap" || len(fb.Decl.Recv.List[0].Names) != 1 {
-			continue
-		}
-		recv := info.Defs[fb.Decl.Recv.List[0].Names[0]]
+	for _, fb := range cowMethods {
+		recv := self[fb]
 		isRecvCall := func(call *ast.CallExpr, names ...string) bool {
-			sel, ok := ast.Unparen(call.Fun).(*ast.SelectorExpr)
-			if !ok {
-				return false
+			callee := onSelf(call, recv)
+			if sel, ok := ast.Unparen(call.Fun).(*ast.SelectorExpr); ok && callee == "" {
+				if inner, ok := ast.Unparen(sel.X).(*ast.SelectorExpr); ok && objOf(info, inner.X) == recv { // r.value.Load()
+					callee = sel.Sel.Name
+				}
 			}
-			base := sel.X
-			if inner, ok := ast.Unparen(base).(*ast.SelectorExpr); ok { // r.value.Load()
-				base = inner.X
-			}
-			if objOf(info, base) != recv {
+			if callee == "" {
 				return false
 			}
 			for _, n := range names {
-				if sel.Sel.Name == n {
+				if callee == n {
 					return true
 				}
 			}
